@@ -2054,7 +2054,7 @@ def recode_cases(jobs):
                 log.append(f"L{i}")
                 return f"s{i}"
 
-            ns = {"LOG": log, "DEPTH": depth, "ev": ev, "boom": boom, "sv": sv, "__name__": "vfprog"}
+            ns = {"LOG": log, "DEPTH": depth, "ev": ev, "boom": boom, "sv": sv, "IDENT": (lambda v: v), "__name__": "vfprog"}
             fname = f"<vf:prog{job['id']}-{int(registered)}>"
             linecache.cache[fname] = (len(src), None, src.splitlines(True), fname)
             res = {"ev": [], "val": 0, "err": 0, "built": "ok", "tb": "none", "lines": []}
